@@ -5,7 +5,7 @@
   delivery instants and accept/reject per attempt are trace inputs (back-off
   jitter is random), everything else is predicted and compared.
 
-    case <id> gw= gi= repeat= retention= sr=<bits>
+    case <id> gw= gi= repeat= retention= sr=<bits> inh=<s>t.s>t|-> mute=<a-b|-> active=<a-b|->
     post <now> <id> <start> <end>            -> <start> <end> <upd> | notstored
     adv <now> | sil <now> <id> <dur> | unsil <now> <id> | mode <now> <i> <m> <lat>
     nfgc <now> -> <n> | restart <now> | groups <now> -> <dump>
@@ -34,6 +34,7 @@ structure Inflight where
   sents : List (Nat × Int × String) := []
   tries : Nat := 0
   paths : List Path := []          -- per integration, decided at flush start (accept assumed)
+  supp : List (Nat × String) := [] -- alerts withheld by this flush and why (silenced | inhibited | time-muted)
   before : String := ""            -- model entries at flush start
 
 structure GSt where
@@ -62,6 +63,9 @@ structure St where
   maintBase : Int := 0                  -- start of the dispatcher's maintenance ticker
   lastT : Int := 0
   limitedAt : List (Nat × Int) := []    -- alerts refused a group by the limit (id, instant)
+  inh : List (Nat × Nat) := []          -- inhibition rules (source id, target id), no equal labels
+  mute : Option (Int × Int) := none     -- the route's mute interval: minutes of the day [a, b)
+  active : Option (Int × Int) := none   -- the route's active interval
 
 def groupOf (id : Nat) : String := if id ≤ 2 then "a" else "b"
 def keyOf (g : String) (i : Nat) : String := "{}:{g=\"" ++ g ++ "\"}" ++ s!":r/fake/{i}"
@@ -86,6 +90,26 @@ def silenced (σ : St) (id : Nat) (t : Int) : Bool :=
 
 def silencedDuring (σ : St) (id : Nat) (a b : Int) : Bool :=
   σ.sils.any fun s => s.id = id ∧ s.from_ ≤ b ∧ a ≤ s.until_
+
+/-- Inhibitor.Mutes: some rule targets the alert and its source alert is held and not resolved (wall clock). -/
+def inhibited (σ : St) (id : Nat) (t : Int) : Bool :=
+  σ.inh.any fun r => r.2 == id && (match lookup σ.provider r.1 with | some a => !a.resolvedAt t | none => false)
+
+/-- conservative: some source of a rule targeting the alert was held and unresolved somewhere in [a, b] -/
+def inhibitedDuring (σ : St) (id : Nat) (a _b : Int) : Bool :=
+  σ.inh.any fun r => r.2 == id && (match lookup σ.provider r.1 with | some x => !x.resolvedAt a | none => false)
+
+def minuteOf (t : Int) : Int := (t / 60000000000) % 1440
+def inRange (r : Int × Int) (t : Int) : Bool := r.1 ≤ minuteOf t ∧ minuteOf t < r.2
+
+/-- TimeActiveStage / TimeMuteStage, both on the flush tick (`notify.Now`): the whole flush is dropped -/
+def timeMuted (σ : St) (tick : Int) : Bool :=
+  (match σ.active with | some r => !inRange r tick | none => false) ||
+  (match σ.mute with | some r => inRange r tick | none => false)
+
+def timeMutedDuring (σ : St) (a b : Int) : Bool :=
+  (σ.mute.isSome ∨ σ.active.isSome) ∧
+  (List.range 4).any fun k => timeMuted σ (a - 60000000000 + (k : Int) * 60000000000) ∧ a - 60000000000 + (k : Int) * 60000000000 ≤ b + 60000000000
 
 def showContent (g : Group) (wall : Int) : String :=
   joinList "," (sortStr ((partition g wall).map fun (a, r) =>
@@ -189,6 +213,7 @@ def step0 (σ : St) (op obs : List String) : St × List Msg :=
           | [id, ends, upd] =>
             let id := toNat! id
             let eligible := toInt! ends > now ∧ toInt! upd + w < now ∧ !silencedDuring σ id (now - w) now
+              ∧ !inhibitedDuring σ id (now - w) now ∧ !timeMutedDuring σ (now - w) now
               ∧ σ.lastModeChange + w < now ∧ σ.lastRestart + w < now ∧ σ.modes.all (fun m => m.1 = "ok" ∧ m.2 = 0)
             if eligible then
               (List.range σ.srs.length).foldl (fun acc i =>
@@ -224,11 +249,20 @@ def step0 (σ : St) (op obs : List String) : St × List Msg :=
         | [id, "r", ends, _] => if toInt! ends > wall then acc ++ [Msg.propfail "never_resolved_early" "resolved-early" s!"alert={id} ends={ends} wall={wall}"] else acc
         | _ => acc) []
       let part := partition gs.g wall
-      let unm := part.filter fun (a, _) => !silenced σ a.id wall
-      let fl : Inflight := { tick, wall, snap := resolvedSlice gs.g wall,
+      -- pipeline order: Inhibit → TimeActive → TimeMute → Silence; the time stages drop the whole flush
+      let tm := timeMuted σ tick
+      let supp : List (Nat × String) := part.filterMap fun (a, _) =>
+        if inhibited σ a.id wall then some (a.id, "inhibited")
+        else if tm then some (a.id, "time-muted")
+        else if silenced σ a.id wall then some (a.id, "silenced") else none
+      let unm := part.filter fun (a, _) => !(supp.any (·.1 = a.id))
+      let fl : Inflight := { tick, wall, snap := resolvedSlice gs.g wall, supp,
                              firing := (unm.filter (!·.2)).map (·.1.id), resolved := (unm.filter (·.2)).map (·.1.id) }
       let tags := [Msg.tag "flush"] ++ (if tick < wall then [Msg.tag "flush:overrun"] else [])
-        ++ (if unm.length < part.length then [Msg.tag "flush:muted"] else [])
+        ++ (if supp.any (·.2 = "silenced") then [Msg.tag "flush:muted"] else [])
+        ++ (if supp.any (·.2 = "inhibited") then [Msg.tag "flush:inhibited"] else [])
+        ++ (if tm ∧ !part.isEmpty then [Msg.tag "flush:time-muted"] else [])
+        ++ (if (σ.mute.isSome ∨ σ.active.isSome) ∧ !tm then [Msg.tag "flush:time-open"] else [])
         ++ (if part.any (·.2) then [Msg.tag "flush:has-resolved"] else [])
       -- DedupStage decides for every integration at the start of the flush (cluster wait is 0);
       -- RetryStage's short-cut records at once, a real send records when it succeeds
@@ -262,7 +296,21 @@ def step0 (σ : St) (op obs : List String) : St × List Msg :=
         let parts := text.splitOn "/"
         let rs := (splitList "." (parts.getD 1 "-")).map fun r => (r.splitOn "@").headD ""
         let iSent := s!"{parts.getD 0 "-"}/{joinList "." rs}"
-        let pf3 := (if p ≠ .send then
+        -- the suppression clauses of C02 / C03 / C15 on what the receiver was actually handed
+        let sentIds := (splitList "." (parts.getD 0 "-")).map toNat! ++ rs.map toNat!
+        let pfSupp := fl.supp.foldl (fun acc (x : Nat × String) =>
+          if sentIds.contains x.1 then
+            acc ++ [Msg.propfail (if x.2 = "silenced" then "takes_effect_next_flush" else if x.2 = "inhibited" then "mutes_iff_spec" else "route_gate")
+                      (x.2 ++ "-notified") s!"group={g} integration={i} alert={x.1} was {x.2} at the flush (tick={fl.tick} wall={fl.wall}) and is listed in the notification {iSent}"]
+          else acc) []
+        -- the converse: an alert that nothing suppressed at the flush is missing from the notification
+        let missing := (fl.firing ++ (if c.sendResolved then fl.resolved else [])).filter fun x => !sentIds.contains x
+        let pfWith := if p ≠ .send then [] else missing.foldl (fun acc x =>
+          acc ++ (if σ.inh.any (·.2 == x) then [Msg.propfail "mutes_iff_spec" "not-inhibited-withheld"
+                    s!"group={g} integration={i} alert={x}: no source of a rule targeting it was firing at the flush (wall={fl.wall}), yet the notification {iSent} omits it"] else [])
+              ++ (if σ.sils.any (·.id == x) then [Msg.propfail "takes_effect_next_flush" "not-silenced-withheld"
+                    s!"group={g} integration={i} alert={x}: no silence for it was active at the flush (wall={fl.wall}), yet the notification {iSent} omits it"] else [])) []
+        let pf3 := pfSupp ++ pfWith ++ (if p ≠ .send then
              [Msg.propfail "notify_only_if_changed_or_repeat" "unjustified" s!"group={g} integration={i} sent={iSent} tick={fl.tick} entry={(fl.before.splitOn ";").getD i "?"}"]
              ++ [Msg.diff s!"sent[{i}]" "none" iSent] else [])
           ++ (if !first then [Msg.propfail "notify_only_if_changed_or_repeat" "duplicate-in-flush" s!"group={g} integration={i} sent={iSent}"] else [])
@@ -295,6 +343,12 @@ def step0 (σ : St) (op obs : List String) : St × List Msg :=
           let pf : List Msg :=
             if p = .send ∧ !sent ∧ mode = "ok" ∧ lat < timeoutOf σ ∧ σ.lastModeChange < fl.wall then
               [Msg.propfail "repeat_on_time" "missed" s!"group={g} integration={i} tick={fl.tick} firing={showNatList fl.firing} resolved={showNatList fl.resolved} entry={(fl.before.splitOn ";").getD i "?"}"]
+              ++ (if σ.mute.isSome ∨ σ.active.isSome then [Msg.propfail "route_gate" "open-flush-withheld"
+                    s!"group={g} integration={i}: the flush at tick={fl.tick} is outside the mute interval / inside the active interval and owes a notification, none was sent"] else [])
+              ++ (if (fl.firing ++ fl.resolved).any (fun x => σ.inh.any (·.2 == x)) then [Msg.propfail "mutes_iff_spec" "not-inhibited-withheld"
+                    s!"group={g} integration={i}: the flush at wall={fl.wall} owes a notification for alerts no firing source inhibits, none was sent"] else [])
+              ++ (if (fl.firing ++ fl.resolved).any (fun x => σ.sils.any (·.id == x)) then [Msg.propfail "takes_effect_next_flush" "not-silenced-withheld"
+                    s!"group={g} integration={i}: the flush at wall={fl.wall} owes a notification for alerts no active silence matches, none was sent"] else [])
             else []
           (msgs ++ pf, okAll && !(p = .send ∧ !sent))) init
         let nf' := σ.nf
@@ -337,11 +391,18 @@ def step (σ : St) (op obs : List String) : St × List Msg :=
     | none => σ
   step0 σ1 op obs
 
+def parseRange (s : String) : Option (Int × Int) :=
+  match s.splitOn "-" with
+  | [a, b] => if a = "" then none else some (toInt! a, toInt! b)
+  | _ => none
+
 def engine : Engine St where
   init hdr :=
     let srs := ((kv hdr "sr").getD "").toList.map (fun ch => ch == '1')
     { gw := kvInt hdr "gw" 0, gi := kvInt hdr "gi" 0, repeatI := kvInt hdr "repeat" 0,
-      retention := kvInt hdr "retention" 0, srs, modes := srs.map fun _ => ("ok", 0), limit := kvNat hdr "limit" 0 }
+      retention := kvInt hdr "retention" 0, srs, modes := srs.map fun _ => ("ok", 0), limit := kvNat hdr "limit" 0,
+      inh := (splitList "." ((kv hdr "inh").getD "-")).filterMap (fun r => match r.splitOn ">" with | [a, b] => some (toNat! a, toNat! b) | _ => none),
+      mute := parseRange ((kv hdr "mute").getD "-"), active := parseRange ((kv hdr "active").getD "-") }
   step := step
 
 end Driver.Sys
